@@ -1183,38 +1183,40 @@ def warnEnv : Env := ⟨fun _ => [], fun j => j == .null,
 
 def warnReq : Req := ⟨.post, loadPath, .val (.bool true), [], false, .adapter⟩
 
-/- full statement, violated by the tree: a rejected load is reported as rejected —
-   ∀ env warns r s, (handleLoad env r s).2.rejected = true → loadStatusSeen env warns r s ≠ 200 -/
-
-/-- **a rejected POST /load can be answered 200**: the adapter's warnings are written to the
-    response before `caddy.Load` runs; the load is rejected, nothing changes — and the client
-    reads status 200 -/
-theorem rejected_load_is_reported_full_fails :
-    ∃ (env : Env) (warns : Body → Bool) (r : Req) (s : State), Reachable env s ∧
-      (handleLoad env r s).2.rejected = true ∧ (handleLoad env r s).1 = s ∧ loadStatusSeen env warns r s = 200 :=
-  ⟨warnEnv, fun _ => true, warnReq, initState, .init, by decide, by decide, by decide⟩
-
-/-- … and that is the only way: a rejected load during which no warnings were written is answered
-    with an error status -/
-theorem rejected_load_is_reported_partial (env : Env) (warns : Body → Bool) (r : Req) (s : State)
-    (hw : warnsWritten env warns r = false) (hrej : (handleLoad env r s).2.rejected = true) :
-    loadStatusSeen env warns r s ≠ 200 := by
+/-- **a rejected POST /load is reported as rejected** (full strength, since /repo bbbf7b6): whatever
+    the adapter warns about, the client of a load that was rejected reads an error status -/
+theorem rejected_load_is_reported (env : Env) (r : Req) (s : State)
+    (hrej : (handleLoad env r s).2.rejected = true) : loadStatusSeen env r s ≠ 200 := by
   unfold loadStatusSeen
-  simp only [hw]
   cases h : (handleLoad env r s).2 <;> simp_all [respStatus, Resp.rejected, statusOf_ne_200]
 
-/-- warnings or not, what is loaded is the same: the state after `POST /load` does not depend on
-    what the adapter warns about (it is `handleLoad`'s, in which warnings do not occur), and a load
-    that answers with warnings only is a load like any other -/
-theorem adapter_warnings_do_not_change_the_load (env : Env) (warns : Body → Bool) (r : Req) (s : State)
-    (hok : (handleLoad env r s).2 = .okWrite) : loadStatusSeen env warns r s = 200 := by
-  unfold loadStatusSeen
-  split
-  · rfl
-  · simp [hok, respStatus]
+/-- … and warnings are only ever written for a load that succeeded -/
+theorem warnings_written_only_after_successful_load (env : Env) (warns : Body → Bool) (r : Req) (s : State)
+    (hw : warnsWritten env warns r s = true) : (handleLoad env r s).2 = .okWrite ∧ loadStatusSeen env r s = 200 := by
+  unfold warnsWritten at hw
+  have h : (handleLoad env r s).2 = .okWrite := by simp_all
+  exact ⟨h, by simp [loadStatusSeen, h, respStatus]⟩
 
-example : warnsWritten warnEnv (fun _ => false) warnReq = false ∧ (handleLoad warnEnv warnReq initState).2.rejected = true := by decide
-example : loadStatusSeen warnEnv (fun _ => false) warnReq initState = 400 := by decide
+/-- **the old code answered a rejected load with 200** (non-vacuity of `rejected_load_is_reported`):
+    before /repo bbbf7b6 the adapter's warnings were written to the response before `caddy.Load`
+    ran; the load was rejected, nothing changed — and the client read status 200 -/
+theorem rejected_load_is_reported_old_code_fails :
+    ∃ (env : Env) (warns : Body → Bool) (r : Req) (s : State), Reachable env s ∧
+      (handleLoad env r s).2.rejected = true ∧ (handleLoad env r s).1 = s ∧
+      loadStatusSeenOld env warns r s = 200 ∧ loadStatusSeen env r s = 400 :=
+  ⟨warnEnv, fun _ => true, warnReq, initState, .init, by decide, by decide, by decide, by decide⟩
+
+/-- warnings or not, what is loaded is the same: the state after `POST /load` is `handleLoad`'s, in
+    which warnings do not occur, and an accepted load answers 200 with or without them -/
+theorem adapter_warnings_do_not_change_the_load (env : Env) (r : Req) (s : State)
+    (hok : (handleLoad env r s).2 = .okWrite) : loadStatusSeen env r s = 200 := by
+  simp [loadStatusSeen, hok, respStatus]
+
+example : adapterWarned warnEnv (fun _ => true) warnReq = true ∧ (handleLoad warnEnv warnReq initState).2.rejected = true ∧
+    warnsWritten warnEnv (fun _ => true) warnReq initState = false := by decide
+example : loadStatusSeen warnEnv warnReq initState = 400 := by decide
+-- an accepted load with warnings (this world's apps accept anything)
+example : warnsWritten { warnEnv with accepts := fun _ => true } (fun _ => true) warnReq initState = true := by decide
 example : (handleLoad warnEnv { warnReq with body := .val .null, ct := .json } initState).2 = .okWrite := by decide
 
 /-- a target net/http cannot parse never reaches a handler -/
